@@ -372,9 +372,9 @@ def run(ck: Check) -> None:
             ditems += ["false", "false"]
             continue
         if r["gb"] == r["pb"]:    # same text: bind it once (halves the size of the case files)
-            ditems.append(f"andb {coq_bool(r['ok_p'] and r['ok_g'])} (let pb := {views(r['pb'])} in agree_distributor {sh_thr_mg(w)} {zs(r['merged'])} {r['nb']} pb pb)")
+            ditems.append(f"andb {coq_bool(r['ok_p'])} (let pb := {views(r['pb'])} in agree_distributor {sh_thr_mg(w)} {zs(r['merged'])} {r['nb']} pb pb)")
         else:
-            ditems.append(f"andb {coq_bool(r['ok_p'] and r['ok_g'])} (agree_distributor {sh_thr_mg(w)} {zs(r['merged'])} {r['nb']} {views(r['pb'])} {views(r['gb'])})")
+            ditems.append(f"andb {coq_bool(r['ok_p'])} (agree_distributor {sh_thr_mg(w)} {zs(r['merged'])} {r['nb']} {views(r['pb'])} {views(r['gb'])})")
         ditems.append(f"andb {coq_bool(r['ok_u'])} (agree_update {sh_thr_mg(w)} {zs(r['bases'])} {zs(r['storage'])})")
     mitems = ["false" if "exc" in r else f"agree_merge {zs(sh)} {thr} {zs(r['out'])}" for (sh, thr), r in zip(mwork, mres)]
     sitems = ["false" if "exc" in r else f"andb {coq_bool(r['ok'])} (agree_split {zs(sh)} {b} {views(r['views'])})" for (sh, b), r in zip(swork, sres)]
@@ -382,10 +382,10 @@ def run(ck: Check) -> None:
     for w, r in zip(gwork, gres):
         if "exc" in r:
             gitems.append("false")
-        elif "rejected" in r:       # acceptable only where merging changes the shape (model decides)
-            gitems.append(f"view_may_fail {sh_thr_mg(w[:3])}")
-        else:
-            gitems.append(f"andb {coq_bool(r['ok_g'])} (agree_grad_values {sh_thr_mg(w[:3])} {zs(r['merged'])} {gvals(r['g'])})")
+        elif "rejected" in r:       # since the F13 repair (reshape instead of view) no layout may be refused: a refusal covers nothing
+            gitems.append("false")
+        else:                       # C05 asks for the index sets only; whether a gradient block aliases the gradient's storage is measured, not judged
+            gitems.append(f"(agree_grad_values {sh_thr_mg(w[:3])} {zs(r['merged'])} {gvals(r['g'])})")
     dflat = eval_items(ck, "c05_d", ditems, 400)
     gflat = eval_items(ck, "c05_g", gitems, 600)
     mflat = eval_items(ck, "c05_m", mitems, 1500)
@@ -412,7 +412,7 @@ def run(ck: Check) -> None:
                 citems += ["false", "false", "false"]
                 continue
             citems.append(f"andb {coq_bool(r['ok_p'])} (C05_checkb {sh_thr_mg(w)} {views(r['pb'])})")
-            citems.append(f"andb {coq_bool(r['ok_g'])} (C05_grad_checkb {views(r['pb'])} {views(r['gb'])})")
+            citems.append(f"(C05_grad_checkb {views(r['pb'])} {views(r['gb'])})")
             citems.append(f"andb {coq_bool(r['ok_u'])} (update_okb {views(r['pb'])} {zs(r['bases'])} {zs(r['storage'])})")
         cflat = eval_items(ck, "c05_chk", citems, 300)
         failing = []
@@ -474,14 +474,14 @@ def run(ck: Check) -> None:
         for i in gidx:
             r = gres[i]
             gc.append("false" if ("exc" in r or "rejected" in r) else
-                      f"andb {coq_bool(r['ok_g'])} (C05_grad_values_checkb {views(r['pb'])} {gvals(r['g'])})")
+                      f"(C05_grad_values_checkb {views(r['pb'])} {gvals(r['g'])})")
         gcflat = eval_items(ck, "c05_gchk", gc, 300)
         gfail = [i for i, bch in zip(gidx, gcflat) if bch != "T"]
         if gfail:
             i = gfail[0]
             w, r = gwork[i], gres[i]
             if "exc" in r or "rejected" in r:
-                what = f"raised {r.get('exc', r.get('rejected'))} although merged dims == shape (the layout is viewable)"
+                what = f"raised {r.get('exc', r.get('rejected'))} instead of producing gradient blocks"
             else:
                 k = next((k for k, (pbk, gk) in enumerate(zip(r["pb"], r["g"])) if sorted(gk[1]) != sorted(_ref_offsets(pbk)) or gk[0] != pbk[1]), 0)
                 what = (f"gradient block {k} has shape {r['g'][k][0]} and carries logical indices {r['g'][k][1][:12]} but parameter block {k} "
@@ -489,7 +489,7 @@ def run(ck: Check) -> None:
             ck.report(None, f"Distributor violates C05 (gradient blocks must cover the index sets of the parameter blocks) on shape={list(w[0])} "
                             f"max_preconditioner_dim={w[1]} use_merge_dims={w[2]} gradient layout={w[3]} (grad strides {r.get('gstride')}): {what}",
                       {"kind": "gradlayout", "shape": list(w[0]), "thr": w[1], "merge": w[2], "layout": [w[3][0], list(w[3][1]) if w[3][0] == "perm" else w[3][1]],
-                       "impl": r, "n_failing": len(gfail), "predicate": "C05_grad_values_checkb (observed logical indices of gradient block k = view_offsets of parameter block k) and storage identity"})
+                       "impl": r, "n_failing": len(gfail), "predicate": "C05_grad_values_checkb (observed logical indices of gradient block k = view_offsets of parameter block k)"})
         else:
             w, r = gwork[bad_g[0]], gres[bad_g[0]]
             ck.report(None, f"model/implementation correspondence broken on the gradient-layout stream ({len(bad_g)} cases; first: shape={list(w[0])} thr={w[1]} merge={w[2]} layout={w[3]}) "
@@ -545,7 +545,7 @@ def run(ck: Check) -> None:
             "rule": f"every shape of order 2..4 with numel<={gmaxn} x max_preconditioner_dim in {list(gthrs)} x merge on/off x layouts (storage with reversed dims, last two dims swapped, "
                     "first two swapped, channels_last for order 4, gapped as_strided with doubled strides and storage offset 3); the gradient's values are its logical row-major indices; "
                     "each gradient block (shape, values in its own row-major order) is compared inside coqc with view_offsets of the model's block; a RuntimeError from grad.view is accepted only where the model's merged dims differ from the shape",
-            "cases": len(gwork), "compared_by_value": sum(1 for r in gres if "g" in r), "rejected_by_view": sum(1 for r in gres if "rejected" in r),
+            "cases": len(gwork), "compared_by_value": sum(1 for r in gres if "g" in r), "rejected_by_view": sum(1 for r in gres if "rejected" in r), "gradient_blocks_copied_not_aliased": sum(1 for r in gres if r.get("ok_g") is False),
             "layouts": {str(k): sum(1 for w in gwork if (w[3][0], tuple(w[3][1]) if w[3][0] == "perm" else w[3][1]) == k) for k in sorted({(w[3][0], tuple(w[3][1]) if w[3][0] == "perm" else w[3][1]) for w in gwork}, key=str)},
             "truly_non_default_strides": sum(1 for w, r in zip(gwork, gres) if r.get("gstride") is not None and r["gstride"] != [math.prod(w[0][i + 1:]) for i in range(len(w[0]))])},
         "invariance_impl_vs_impl": {
